@@ -37,7 +37,7 @@ NoView == [rn |-> 0, sosor |-> 0]
 NoSeen == [sosor |-> 0, eosor |-> 0, soeor |-> 0, eoeor |-> 0]
 
 Init ==
-  /\ l = 1 /\ scn = -1 /\ hooks = <<>> /\ pred = <<>> /\ reqi = 0 /\ tx = "" /\ acq = "" /\ step = NoStep /\ lastw = -1000
+  /\ l = 1 /\ scn = -1 /\ hooks = <<>> /\ pred = <<>> /\ reqi = 0 /\ tx = "" /\ acq = "" /\ step = NoStep /\ lastw = -100000
   /\ open = {} /\ pendA = {} /\ failedH = {} /\ cancelled = FALSE /\ cmds = 0 /\ laterStart = FALSE /\ lateErr = FALSE /\ sawAfter = FALSE
   /\ inWin = FALSE /\ winStarted = {} /\ outStarted = {}
   /\ run = 0 /\ runView = NoView /\ seen = NoSeen /\ ended = TRUE /\ endS = 0 /\ endC = 0 /\ nviol = 0
@@ -45,7 +45,7 @@ Init ==
 TReset ==
   /\ Line.ev = "Reset"
   /\ scn' = Line.scn /\ hooks' = Line.model.hooks /\ pred' = Line.model.pred /\ reqi' = 0 /\ tx' = "" /\ acq' = ""
-  /\ step' = NoStep /\ lastw' = -1000 /\ open' = {} /\ pendA' = {} /\ failedH' = {} /\ cancelled' = FALSE /\ cmds' = 0 /\ laterStart' = FALSE /\ lateErr' = FALSE /\ sawAfter' = FALSE
+  /\ step' = NoStep /\ lastw' = -100000 /\ open' = {} /\ pendA' = {} /\ failedH' = {} /\ cancelled' = FALSE /\ cmds' = 0 /\ laterStart' = FALSE /\ lateErr' = FALSE /\ sawAfter' = FALSE
   /\ inWin' = FALSE /\ winStarted' = {} /\ outStarted' = {}
   /\ run' = 0 /\ runView' = NoView /\ seen' = NoSeen /\ ended' = TRUE /\ endS' = 0 /\ endC' = 0
   /\ UNCHANGED nviol
@@ -70,12 +70,12 @@ AwaitHere(h, m) == HK(h).am = m /\ (HK(h).tm # m \/ HK(h).aw >= HK(h).tw)
 TStep ==
   /\ Line.ev = "Step"
   /\ IF Line.phase = "start"
-       THEN /\ step' = [m |-> Line.m, k |-> Line.k, tx |-> Line.tx, cf |-> FALSE] /\ lastw' = -1000
+       THEN /\ step' = [m |-> Line.m, k |-> Line.k, tx |-> Line.tx, cf |-> FALSE] /\ lastw' = -100000
             /\ laterStart' = (laterStart \/ cancelled)
             /\ sawAfter' = (sawAfter \/ Line.k = "after")
             /\ nviol' = nviol
             /\ UNCHANGED <<cancelled, lateErr>>
-       ELSE /\ step' = NoStep /\ lastw' = -1000
+       ELSE /\ step' = NoStep /\ lastw' = -100000
             /\ cancelled' = (cancelled \/ (Line.err /\ Line.k \in {"before", "leave"}))
             /\ lateErr' = (lateErr \/ (Line.err /\ Line.k = "enter"))
             /\ UNCHANGED <<laterStart, sawAfter>>
@@ -136,13 +136,14 @@ THStart ==
   /\ Line.ev = "HStart"
   /\ LET C == {Line.calls[i] : i \in 1..Len(Line.calls)} \cap HookIds IN
      /\ pendA' = pendA \cup C
-     /\ lastw' = Line.w
+     \* (within one weight the calls are started first, then the hook tasks: "started together"; key = 2*weight + kind)
+     /\ lastw' = 2 * Line.w + (IF Line.kind = "tasks" THEN 1 ELSE 0)
      /\ winStarted' = IF inWin THEN winStarted \cup C ELSE winStarted \ C
      /\ outStarted' = IF inWin THEN outStarted \ C ELSE outStarted \cup C
      /\ nviol' = nviol
           \* (TeardownEnvironment runs the leave_<state> hooks itself, outside of a transition step)
           + Soft("AtTrigger", (step.m = Line.m \/ tx = "DESTROY") /\ \A c \in C : HK(c).tm = Line.m /\ HK(c).tw = Line.w, <<Line.m, Line.w, C, step.m>>)
-          + Soft("Ordered", Line.w > lastw, <<Line.m, Line.w, lastw>>)
+          + Soft("Ordered", 2 * Line.w + (IF Line.kind = "tasks" THEN 1 ELSE 0) > lastw, <<Line.m, Line.w, Line.kind, lastw>>)
           \* C09: after a critical failure at before_/leave_ no later hook of that transition is started
           + Soft("CancelBefore", ~cancelled, <<Line.m, Line.w, C>>)
   /\ UNCHANGED <<scn, hooks, pred, reqi, tx, acq, step, failedH, open, cancelled, cmds, laterStart, lateErr, sawAfter, inWin, run, runView, seen, ended, endS, endC>>
